@@ -34,7 +34,7 @@ def main():
     patch = os.path.join(d, "patch.diff")
     demo = os.path.join(d, "demo.py" if os.path.exists(os.path.join(d, "demo.py")) else "demo_test.py")
     out = {"dir": d, "property": pid, "summary": meta.get("summary", "")[:200]}
-    if "--private" not in args:
+    if "--private" not in args and "--confirm-only" not in args:
         assert not subprocess.run(["git", "-C", "/repo", "status", "--porcelain", "--untracked-files=no"], capture_output=True, text=True).stdout.strip(), "/repo dirty"
     if not skip_confirm:
         wt = tempfile.mkdtemp(prefix="seeded-confirm-", dir="/tmp")
@@ -56,6 +56,9 @@ def main():
         finally:
             sh(["git", "-C", "/repo", "worktree", "remove", "--force", wt])
             shutil.rmtree(wt, ignore_errors=True)
+    if "--confirm-only" in args:
+        print(json.dumps(out, indent=1))
+        return
     if "--private" in args:
         # run the checks against a private worktree with the patch applied (VERIF_REPO), leaving /repo alone
         pw = tempfile.mkdtemp(prefix="seeded-private-", dir="/tmp")
